@@ -198,6 +198,8 @@ func (x *Exec) callByContract(st *State, fr *Frame, callee *ssa.Function, fc *Fu
 				if cv, ok := st.cells[bindings[i].Ptr.Cell]; ok {
 					env.vars[fv.Name()] = cv
 				}
+			} else if i < len(bindings) && bindings[i].Ptr != nil {
+				env.vars[fv.Name()] = x.load(st, bindings[i].Ptr)
 			}
 		}
 	}
@@ -526,6 +528,15 @@ func (x *Exec) havocModItem(st *State, env *Env, m ModItem, classes map[string]b
 		}
 		x.setHeap(st, hn, hs, app("store", h, arr, na))
 	case *CIdent:
+		if _, bound := env.vars[e.Name]; bound {
+			mv := x.eval(env, e)
+			if mv.Typ != nil {
+				if _, isMap := mv.Typ.Underlying().(*types.Map); isMap {
+					x.havocContentsFramed(st, mv.Typ, x.term(mv))
+					return
+				}
+			}
+		}
 		// raw class name or a whole-type shorthand
 		classes[e.Name] = true
 	case *CCall:
@@ -852,8 +863,10 @@ func (x *Exec) builtin(st *State, b *ssa.Builtin, c *ssa.CallCommon, args []*Val
 		case *types.Array:
 			return &Value{Typ: rt, K: constant.MakeInt64(u.Len())}
 		case *types.Map:
-			x.Reg.Add("maplen", "(declare-fun maplen (Int) Int)")
-			return &Value{T: app("maplen", x.term(a)), Typ: rt}
+			// the number of entries is not tracked: an arbitrary non-negative int
+			n := x.fresh("maplen", rt)
+			st.assume(and(app("<=", "0", n.T), app("<=", n.T, "9223372036854775807")))
+			return n
 		case *types.Pointer:
 			if at, ok := u.Elem().Underlying().(*types.Array); ok {
 				return &Value{Typ: rt, K: constant.MakeInt64(at.Len())}
@@ -1047,6 +1060,7 @@ func (x *Exec) chanEventNamed(st *State, kind, name string, v *Value, okT string
 	if name == "" {
 		return
 	}
+	x.chanPromises(st, kind, name, v, okT, cond, pos)
 	switch kind {
 	case "close":
 		if gv, ok := st.ghost["ev_close_"+name]; ok {
@@ -1131,3 +1145,60 @@ func (x *Exec) chanSelectEvent(st *State, i int, idx *Value, kind string, ch, v 
 }
 
 func (x *Exec) ghostEvent(st *State, kind string, pos ssa.Instruction) {}
+
+// chanPromises: rely/guarantee on messages. A `promise ... at ch:` clause in the
+// contract of the function that owns channel ch must hold whenever one of its
+// goroutines sends on ch ($msg is the value sent) and is assumed by the owner
+// after it receives from ch ($msg is the value received). Sound under the
+// hand-off discipline (discipline/goroutine-results-handed-off-through-a-channel).
+func (x *Exec) chanPromises(st *State, kind, name string, v *Value, okT, cond string, pos ssa.Instruction) {
+	if v == nil || pos == nil || pos.Parent() == nil {
+		return
+	}
+	fn := pos.Parent()
+	fr := st.top()
+	switch kind {
+	case "send":
+		owner := fn.Parent()
+		if owner == nil {
+			return
+		}
+		fc, ok := x.C.Funcs[x.P.FuncName(owner)]
+		if !ok {
+			return
+		}
+		for _, pr := range fc.Promises {
+			if pr.At != name {
+				continue
+			}
+			env := x.envFor(st, x.entry, fr)
+			env.vars["$msg"] = v
+			g := x.evalBool(env, pr.Expr)
+			if cond != "" {
+				g = implies(cond, g)
+			}
+			x.oblige(st, "send@"+name, pr.Label, pr.Props, g, x.P.Pos(instrPos(pos)), pr.Src)
+		}
+	case "recv":
+		fc, ok := x.C.Funcs[x.P.FuncName(fn)]
+		if !ok {
+			return
+		}
+		for _, pr := range fc.Promises {
+			if pr.At != name {
+				continue
+			}
+			env := x.envFor(st, x.entry, fr)
+			env.vars["$msg"] = v
+			g := x.evalBool(env, pr.Expr)
+			c := cond
+			if okT != "" {
+				c = and(cond, okT)
+			}
+			if c != "" && c != "true" {
+				g = implies(c, g)
+			}
+			st.assume(g)
+		}
+	}
+}
